@@ -310,8 +310,9 @@ def evaluate(c, ctx: Ctx = None):
             ctx.extra['control_rejected'] = ctx.extra.get('control_rejected', 0) + 1
         return []
     body = render(flines, '\n', True)
-    if body.startswith(BOM):
-        # a U+FEFF that is the very first character IS a byte-order mark (and a doubled one is not claimed): not a fault
+    if body.startswith(BOM) and not bom and not body.startswith(BOM + BOM):
+        # a single U+FEFF that is the very first character IS a byte-order mark: not a fault
+        # (two or more of them are: only one leading mark is ignored, on every route)
         if ctx is not None:
             ctx.extra['fault_not_applicable'] = ctx.extra.get('fault_not_applicable', 0) + 1
         return []
